@@ -371,6 +371,9 @@ pub(crate) unsafe fn patch_function(func: *mut u8, patch: &[u8]) {
         &mut max,
         VM_INHERIT_NONE,
     );
+
+    // The new bytes only became visible at `func` with the remap above.
+    sys_icache_invalidate(func, patch.len());
 }
 
 // MacOS forces memory to be writable or executable but not both. So we don't need an
@@ -458,9 +461,7 @@ unsafe fn clear_cache(start: *mut u8, end: *mut u8) {
 
     #[cfg(target_os = "macos")]
     {
-        // The cache is invalidated in patch_function.
-        let _ = start;
-        let _ = end;
+        sys_icache_invalidate(start, end.offset_from(start) as usize);
     }
 
     // On ARM64, explicitly synchronize the CPU pipeline.
